@@ -217,7 +217,7 @@ def _c09(tier, seed):
     runs.append("H_C09_results(3,0,0)")
     if not q:
         runs += ["H_C09_results(3,1,1)", "H_C09_results(3,2,0)", "H_C09_results(3,2,1)"]
-    return [dict(name="rpc", pkg=".", harness=NET_HARNESS + ["harness/root/c09.go"], runs=runs, solver="z3", walllimit=600, timeout=3000,
+    return [dict(name="rpc", pkg=".", harness=NET_HARNESS + ["harness/root/c09.go"], runs=runs, solver="z3", walllimit=600, timeout=3000, replay="schedule",
                  validate_runs=["H_C09_results(2,0,0)", "H_C09_results(2,1,1)"], veclen=200)]
 
 def _c10(tier, seed):
@@ -242,7 +242,7 @@ def _c11(tier, seed):
 
 def _c16(tier, seed):
     q = tier == "quick"
-    runs = ["H_C16_message(%d,%d)" % (k, w) for k in range(16) for w in ((1,) if q else (0, 1))] + ["H_C16_repeated()", "H_C16_reconnect()"]
+    runs = ["H_C16_message(%d,%d)" % (k, w) for k in range(19) for w in ((1,) if q else (0, 1))] + ["H_C16_repeated()", "H_C16_reconnect()"]
     return [dict(name="loop", pkg=".", harness=NET_HARNESS + ["harness/root/c16.go"], runs=runs, solver="z3", walllimit=600, timeout=3000, replay="schedule",
                  crash_tags=["process-survives"], validate_runs=["H_C16_message(0,1)", "H_C16_message(2,1)", "H_C16_message(9,1)"], veclen=100)]
 
@@ -274,7 +274,7 @@ PROPS = {
     ),
     "C16": dict(
         jobs=_c16,
-        bounds={"quick": "one server message of each of 16 kinds (pong, msgs_ack, new_session_created, bad_msg_notification, rpc_result for an unknown request, unregistered constructor, truncated body at every cut, empty and nested containers, unexpected objects, empty body, bare Bool/vector) with symbolic fields and odd/even seq_no, delivered to the library's own receive loop (startReadingResponses over a fake transport) with a consumer on the Warnings channel; a repeated rpc_result; orderly close (io.EOF) followed by reconnection through a hooked transport factory; each followed by a probe request that must complete",
+        bounds={"quick": "one server message of each of 19 kinds (rpc_result / bad_server_salt / container truncated at every cut, pong, msgs_ack, new_session_created, bad_msg_notification, rpc_result for an unknown request, unregistered constructor, truncated body at every cut, empty and nested containers, unexpected objects, empty body, bare Bool/vector) with symbolic fields and odd/even seq_no, delivered to the library's own receive loop (startReadingResponses over a fake transport) with a consumer on the Warnings channel; a repeated rpc_result; orderly close (io.EOF) followed by reconnection through a hooked transport factory; each followed by a probe request that must complete",
                 "thorough": "also without a Warnings consumer"},
         outside="sequences of several such messages (each run is one step from the idle state); real sockets and process exit codes; gzip-packed traffic (C15 decodes it)",
         assumptions=["a panic escaping any goroutine is process death", "transport.NewTransport hooked inside the engine for the reconnect scenario (not replayable natively)"],
@@ -288,7 +288,7 @@ PROPS = {
     ),
     "C09": dict(
         jobs=_c09,
-        bounds={"quick": "2 concurrent callers (3 for object results) x every answer order x {plain messages, one container} x result kinds {object, Bool, bare Vector<long> with hint}; result payloads symbolic; schedules: every choice of the next goroutine at each transport write (symbolic scheduling decisions), deterministic lowest-id-first elsewhere; concrete clock (1 us per reading)",
+        bounds={"quick": "2 concurrent callers (3 for object results) x every answer order x {plain messages, one container} x result kinds {object, Bool, bare Vector<long> with hint}; result payloads symbolic; schedules: symbolic choice of the next goroutine before and after each transport write, at most 2 pre-emptions per path (context-switch bound), deterministic lowest-id-first elsewhere; concrete clock (1 us per reading)",
                 "thorough": "3 callers for every kind/packaging"},
         outside="more goroutines; real sockets and crypto (fake transport at the messages.Common level); gzip-packed results (C15/C16 exercise the gzip decoder); schedules that differ only between yield points",
         assumptions=["cooperative scheduling model: a goroutine runs until it blocks, finishes or reaches a transport write", "time.Now stubbed by a concrete advancing clock"],
